@@ -11,12 +11,13 @@ def _nn(v):
     return np.inf if np.isnan(v) else v
 
 
-TECHNIQUE = 'Coq bounded proof that the stencil_grid algorithm equals its specification + ring proofs of the diffusion stencils + exhaustive small-grid correspondence'
+TECHNIQUE = 'Coq proof (every grid, every dimension, every stencil) that the stencil_grid algorithm equals its specification + ring proofs of the diffusion stencils + exhaustive small-grid correspondence'
 LEVEL_TEXT = ('Kernel-checked theorems (Props/C20.v): the Gallina transcription of stencil_grid (row-major nonzeros, '
               'strides, per-diagonal boundary zeroing by slices, dropping of out-of-range diagonals, summation of equal '
               'offsets, DIA semantics) equals the specification "row p holds the stencil entries of the neighbours that '
-              'exist" on every grid with 1..3 points per dimension in 1-3 D (1-wide and non-square included) for generic '
-              'stencils (bounded, vm_compute); the FE and FD 2-D diffusion stencils, written operation by operation as the '
+              'exist" on EVERY grid -- any number of dimensions, any positive extents, 1-wide and non-square included -- and for every '
+              'stencil of the grid\'s dimension, whatever its extents and entries (C20_stencil_grid_is_spec: induction; the flat index <-> '
+              'multi-index bijection C20_grid_points_row_major; the earlier bounded vm_compute theorem is kept); the FE and FD 2-D diffusion stencils, written operation by operation as the '
               'library computes them from eps, cos(theta), sin(theta), are exact on all quadratic polynomials (0 on 1, x, y; '
               '-2 K11, -2 K22, -2 K12 on x^2, y^2, xy with K = Q diag(1, eps) Q^T), for every anisotropy and rotation, over any '
               'field with 2 and 3 invertible -- they discretise -div K grad u -- and these Gallina stencils evaluated at '
@@ -25,7 +26,8 @@ LEVEL_TEXT = ('Kernel-checked theorems (Props/C20.v): the Gallina transcription 
               'dimension in 1-3 D, random odd integer stencils with zeros, every format and dtype); oracles decide Poisson '
               '(symmetric M-matrix, tensor-product spectrum), diffusion row sums, and the Q1 elasticity generator on all '
               'grid shapes incl. non-square (symmetric, definite, rigid-body modes).')
-LEVEL_NOTE = ('The stencil theorem is bounded (grids <= 3 per dimension); larger grids are covered by the correspondence '
+LEVEL_NOTE = ('The stencil theorem is unbounded and about exact arithmetic (any value type whose addition has the stored zero as right '
+              'identity); float rounding of summed duplicate diagonals and the SciPy DIA container are tied by the correspondence '
               '(<= 5 per dimension, exhaustive over shapes).  Poisson spectrum, elasticity assembly: oracle only.  F7 '
               '(non-square elasticity) repaired by a fix: commit.')
 RULE = ('all grid shapes with 1..5 points per dimension in 1-D and 2-D and 1..3 in 3-D x random odd stencils (3 and 5 wide, '
@@ -36,7 +38,7 @@ RULE += (' '
          'FE Poisson: tensor-product spectrum 3^N - prod(1 + 2 cos) and zero interior row sums.')
 THOROUGH_ROUNDS = 4
 TRUSTED = ['SciPy dia_array semantics and format conversion', 'NumPy eigvalsh on the oracle side']
-PARTIAL = ['stencil theorem bounded to grids <= 3 per dimension', 'Poisson spectrum and elasticity: oracle only']
+PARTIAL = ['stencil theorem: exact arithmetic, DIA container semantics modelled (A[i, i+off] = data[off][i+off])', 'Poisson spectrum and elasticity: oracle only']
 HEADER = ('From Coq Require Import ZArith List.\nImport ListNotations.\n'
           'Require Import PV.Base.Ops PV.Model.StencilRun.\nOpen Scope Z_scope.\n')
 
